@@ -75,7 +75,7 @@ def prop_module(prop):
 
 # system-level theorems (Props/Sys.lean: builder -> stream -> chunked scanner -> decoder) compose the
 # theorems of several properties; they are built and audited with the properties they extend
-EXTRA_MODULES = {"C01": ["Sys"], "C05": ["Sys"], "C06": ["Sys"]}
+EXTRA_MODULES = {"C01": ["Sys"], "C05": ["Sys"], "C06": ["Sys"], "C12": ["C12Gen"], "C03": ["CrcOnto"], "C04": ["CrcOnto"]}
 
 
 def prop_theorems(prop):
@@ -95,9 +95,23 @@ def module_theorems(mod):
     # strip comments
     src_nc = re.sub(r"/-.*?-/", "", src, flags=re.S)
     src_nc = re.sub(r"--.*", "", src_nc)
-    ns = re.search(r"^namespace\s+(\S+)", src_nc, flags=re.M)
-    prefix = ns.group(1) + "." if ns else ""
-    names = [prefix + m for m in re.findall(r"^theorem\s+(\S+)", src_nc, flags=re.M)]
+    names, stack = [], []
+    for line in src_nc.split("\n"):
+        m = re.match(r"^namespace\s+(\S+)", line)
+        if m:
+            stack.append(m.group(1))
+            continue
+        m = re.match(r"^end\s+(\S+)", line)
+        if m and stack and stack[-1] == m.group(1):
+            stack.pop()
+            continue
+        m = re.match(r"^theorem\s+(\S+)", line)
+        if m:
+            n = m.group(1)
+            if n.startswith("_root_."):
+                names.append(n[len("_root_."):])
+            else:
+                names.append(".".join(stack + [n]))
     examples = len(re.findall(r"^example\b", src_nc, flags=re.M))
     return names, examples
 
